@@ -22,6 +22,32 @@ def load_known():
     return json.load(open(p))
 
 
+def core_label(name):
+    """obligation name without source line / path number (stable across edits of the code)"""
+    return name.split('@')[0]
+
+
+def load_baseline(prop):
+    p = os.path.join(VERIF, 'baseline', prop + '.json')
+    if not os.path.exists(p):
+        return {'units': {}}
+    return json.load(open(p))
+
+
+def baseline_verdict(o, r, base):
+    """an obligation the solver left undecided: if it was proved on the committed baseline tree and a function this unit
+    verifies (the function under contract or an inlined callee) has changed since, the change broke a proof that existed -
+    reported as a violation without a failing input.  Same code as the baseline: solver budget problem, stays undecided."""
+    bu = base.get('units', {}).get(r['unit'])
+    if not bu or core_label(o['name']) not in bu.get('proved', []):
+        return None
+    now = {f['function']: f['sha256'] for f in r.get('fingerprints', [])}
+    changed = sorted(set(k for k in set(now) | set(bu['fp']) if now.get(k) != bu['fp'].get(k)))
+    if not changed:
+        return None
+    return changed
+
+
 def check_property(a):
     t0 = time.time()
     prop = a.prop
@@ -89,6 +115,20 @@ def check_property(a):
                 unknown.append(o)
         known_hits = still
 
+    # undecided obligations: proved on the baseline and the verified code changed since -> violation (no failing input)
+    base = load_baseline(prop)
+    by_unit = {r['unit']: r for r in results}
+    regressed = {}
+    still_unknown = []
+    for o in unknown:
+        ch = baseline_verdict(o, by_unit[o['unit']], base)
+        if ch:
+            regressed[id(o)] = ch
+            violations.append(o)
+        else:
+            still_unknown.append(o)
+    unknown = still_unknown
+
     exit_code = EXIT_OK
     lines = []
     if errors or vacuous or disagree:
@@ -110,7 +150,12 @@ def check_property(a):
             by_label.setdefault((o['unit'], o['label']), []).append(o)
         for (un, label), lst in sorted(by_label.items()):
             o = lst[0]
-            path, confirmed = make_replay(prop, o, [u for u in units if u.name == un][0], repo)
+            extra = None
+            if id(o) in regressed:
+                extra = {'basis': 'obligation was discharged on the baseline tree (baseline/%s.json) and is no longer discharged '
+                                  'after the change of %s; solver: %s' % (prop, ', '.join(regressed[id(o)]), o.get('reason') or 'timeout'),
+                         'changed_functions': regressed[id(o)]}
+            path, confirmed = make_replay(prop, o, [u for u in units if u.name == un][0], repo, extra)
             replay_paths.append(path)
             suffix = '' if confirmed else ' no-failing-input-found'
             lines.append('VIOLATION property=%s replay=%s obligation=%s unit=%s%s' % (prop, path, o['name'], un, suffix))
@@ -149,7 +194,7 @@ def check_property(a):
     samples = []
     for o in (refuted + unknown + proved)[:0] + sorted(proved, key=lambda o: -o['time'])[:4] + refuted[:3]:
         samples.append({'obligation': o['name'], 'unit': o['unit'], 'status': o['status'], 'backend': o['backend'], 'solver_s': o['time']})
-    n_open = len(refuted) + len(unknown)
+    n_open = len(refuted) + len(unknown) + len(regressed)
     level = 'proof' if (n_open == 0 and not errors and counted) else 'other'
     coverage = {
         'obligations': len(counted),
@@ -170,6 +215,8 @@ def check_property(a):
         'preconditions_satisfiable': len([o for o in covers if o['status'] == 'proved']),
         'refuted': [{'obligation': o['name'], 'unit': o['unit']} for o in refuted],
         'undecided': [{'obligation': o['name'], 'unit': o['unit']} for o in unknown],
+        'regressed_vs_baseline': [{'obligation': o['name'], 'unit': o['unit'], 'changed_functions': regressed[id(o)]}
+                                  for o in violations if id(o) in regressed],
         'known_findings_seen': sorted(seen_kf),
         'out_of_scope': meta.get('out_of_scope', []),
         'bounded': meta.get('bounded', []),
@@ -187,6 +234,19 @@ def check_property(a):
     os.makedirs(evdir, exist_ok=True)
     with open(os.path.join(evdir, prop + '.json'), 'w') as f:
         json.dump(ev, f, indent=1, sort_keys=True)
+    if os.environ.get('PYVC_WRITE_BASELINE') and REPO == '/repo' and not a.units:
+        if exit_code != EXIT_OK:
+            print('baseline NOT written: the run is not clean')
+        else:
+            bd = os.path.join(VERIF, 'baseline')
+            os.makedirs(bd, exist_ok=True)
+            units_b = {}
+            for r in results:
+                mine = sorted(set(core_label(o['name']) for o in r['obligations']
+                                  if o['kind'] != 'cover' and o['status'] == 'proved' and ob_belongs(o, r.get('props', []), prop)))
+                units_b[r['unit']] = {'fp': {f['function']: f['sha256'] for f in r.get('fingerprints', [])}, 'proved': mine}
+            with open(os.path.join(bd, prop + '.json'), 'w') as f:
+                json.dump({'property': prop, 'units': units_b}, f, indent=0, sort_keys=True)
     if os.environ.get('PYVC_TIMES'):
         slow = sorted([o for o in counted if o['time'] >= float(os.environ['PYVC_TIMES'])], key=lambda o: -o['time'])
         for o in slow[:40]:
@@ -196,8 +256,8 @@ def check_property(a):
     print('%s: %d units, %d obligations, %d proved, %d refuted, %d undecided, %d known findings; exit %d; %.1fs'
           % (prop, len(results), len(counted), len(proved), len(refuted), len(unknown), len(seen_kf), exit_code, time.time() - t0))
     if a.v:
-        for o in refuted + unknown:
-            print('  %s[%s%s] %s %s line=%s %s' % (o['status'], o.get('backend'), ' WEAK-MODEL' if o.get('weak_model') else '', o['unit'], o['name'], o['line'], ((o.get('info') or {}).get('expr') or '')[:160]))
+        for o in refuted + unknown + [v for v in violations if id(v) in regressed]:
+            print('  %s[%s%s] %s %s line=%s %s' % (o['status'], o.get('backend'), ' weak-model:' + str(o.get('weak_backend')) if o.get('weak_model') else '', o['unit'], o['name'], o['line'], ((o.get('info') or {}).get('expr') or '')[:160]))
             if o.get('goal') and os.environ.get('PYVC_SHOW_GOAL'):
                 print('     goal:', o['goal'][-600:])
             if o.get('model'):
